@@ -295,7 +295,12 @@ def extract_pin_cite(
     if m:
         if m["pin_cite"]:
             pin_cite = clean_pin_cite(m["pin_cite"])
-            extra_chars = len(m["pin_cite"].rstrip(", ")) - len(prefix)
+            # the pin cite may cover less than the page prefix (a page like
+            # "9,2" or "1[A]" only starts with a pin cite), but the citation
+            # never ends before its own token
+            extra_chars = max(
+                len(m["pin_cite"].rstrip(", ")) - len(prefix), 0
+            )
         else:
             pin_cite = None
             extra_chars = 0
